@@ -776,7 +776,9 @@ GRIget_image_list(int32 file_id, gr_info_t *gr_ptr)
                         int special_type =
                             GRIisspecial_type(file_id, img_info[i].img_tag, img_info[i].img_ref);
 
-                        if (((img_info[i].offset != INVALID_OFFSET && img_info[i].offset != 0) &&
+                        /* the very same element is one image even while it has no data (no offset) yet */
+                        if (img_info[i].img_tag == img_info[j].img_tag ||
+                            ((img_info[i].offset != INVALID_OFFSET && img_info[i].offset != 0) &&
                              img_info[i].offset == img_info[j].offset) ||
                             (img_info[i].offset == 0 &&
                              (special_type == SPECIAL_LINKED || special_type == SPECIAL_CHUNKED))) {
